@@ -714,7 +714,8 @@ class LeastSquare:
 
         numbtype = number_type(allknots)
         numbtype = Fraction if (numbtype is int) else numbtype
-        nptsinteg = olddegree + newdegree + 3  # Number integration points
+        # Number integration points: products of degree 2*max(degrees)
+        nptsinteg = max(olddegree + newdegree + 3, 2 * max(olddegree, newdegree) + 1)
         if numbtype is Fraction:
             # Open rule: the basis functions may be discontinuous at the knots
             nodes0to1 = NodeSample.open_linspace(nptsinteg)
